@@ -333,9 +333,7 @@ func VerifC07Field() {
 	verif.Assume(!nonFinite) // "NaN"/"Infinity" strings of float kinds: reported under C06
 	ok := decls.accepts("Msg", doc, 0)
 	if doc.get(fjson) != nil && doc.get(fjson).cat == c06Null && emptyBehavior == http.EmptyBehavior_EMPTY_BEHAVIOR_NULL {
-		verif.Expect("KF-C07-empty-behavior-null-is-not-declared-as-null-union", ok)
-		verif.Reach("C07/field/kf-empty-null")
-		return
+		verif.Reach("C07/field/empty-null") // region of the defect repaired in the TS emitters
 	}
 	verif.Assert("C07/field/wire-value-inhabits-declared-type", ok)
 	req := decls.requiredPresent("Msg", doc)
